@@ -530,10 +530,12 @@ func (bh *Header) RemoveReference(r *Reference) error {
 		return errInvalidReference
 	}
 	bh.refs = append(bh.refs[:r.id], bh.refs[r.id+1:]...)
-	for i := range bh.refs[r.id:] {
-		bh.refs[i+int(r.id)].id--
+	for _, o := range bh.refs[r.id:] {
+		o.id--
+		bh.seenRefs[o.name] = o.id
 	}
 	r.id = -1
+	r.owner = nil
 	delete(bh.seenRefs, r.name)
 	return nil
 }
@@ -560,10 +562,12 @@ func (bh *Header) RemoveReadGroup(rg *ReadGroup) error {
 		return errInvalidReadGroup
 	}
 	bh.rgs = append(bh.rgs[:rg.id], bh.rgs[rg.id+1:]...)
-	for i := range bh.rgs[rg.id:] {
-		bh.rgs[i+int(rg.id)].id--
+	for _, o := range bh.rgs[rg.id:] {
+		o.id--
+		bh.seenGroups[o.name] = o.id
 	}
 	rg.id = -1
+	rg.owner = nil
 	delete(bh.seenGroups, rg.name)
 	return nil
 }
@@ -590,10 +594,12 @@ func (bh *Header) RemoveProgram(p *Program) error {
 		return errInvalidProgram
 	}
 	bh.progs = append(bh.progs[:p.id], bh.progs[p.id+1:]...)
-	for i := range bh.progs[p.id:] {
-		bh.progs[i+int(p.id)].id--
+	for _, o := range bh.progs[p.id:] {
+		o.id--
+		bh.seenProgs[o.uid] = o.id
 	}
 	p.id = -1
+	p.owner = nil
 	delete(bh.seenProgs, p.uid)
 	return nil
 }
